@@ -204,6 +204,13 @@ class NonBlockingQueueShim(types.ModuleType):
         self.Queue = Queue
 
 
+class _EndThread:
+    def __eq__(self, other):
+        raise SystemExit()
+
+    __hash__ = None
+
+
 class RadioEnv:
     """Installs fake dongles behind cflib.drivers.crazyradio._find_devices for the duration of a with-block."""
 
@@ -241,7 +248,14 @@ class RadioEnv:
         self._rd.queue = self._orig_queue
         self._rd._nr_of_retries = self._orig_retries
         self._rd._nr_of_arc_retries = self._orig_arc
-        # forget shared radios whose dongle was closed, so the next case gets a fresh Crazyradio
-        for i, r in enumerate(list(self._rd.RadioManager._radios)):
-            pass
+        # the shared-radio threads of this case (one per dongle, they serve a command queue for ever) are told to end: a
+        # command whose comparison with the command codes raises SystemExit ends the thread silently; without this every case
+        # leaves immortal threads behind and a long run exhausts the machine
+        for r in list(self._rd.RadioManager._radios):
+            if r is not None:
+                try:
+                    r._cmd_queue.put((0, _EndThread(), None))
+                except Exception:  # noqa
+                    pass
+        self._rd.RadioManager._radios = []
         return False
